@@ -1,5 +1,5 @@
 """C09 - Rules hold on every reported row and fire on their schedule."""
-CONTRACT_MODULES = ['types_rules', 'types_terms', 'simulator_interfaces', 'simulator_ssa', 'simulator_delay', 'simulator_volume', 'simulator_queue', 'random_', 'lineage_model']
+CONTRACT_MODULES = ['types_rules', 'types_terms', 'simulator_interfaces', 'simulator_ssa', 'simulator_delay', 'simulator_volume', 'simulator_delayvolume', 'simulator_queue', 'random_', 'lineage_model']
 SPEC_MODULES = ['functions']
 LEVEL = 'proof'
 ASSUMPTIONS = [
